@@ -213,4 +213,22 @@ def step? (st : St) : Op → Option St
       else none
     | none => none
 
+/-- a variant of `makeCharged` that signals only when `charged` was empty before the append
+    ("processors sleep only while nothing is charged") — NOT what /repo does; kept to show what the
+    unconditional Signal is needed for (Props/C04 `signal_only_when_empty_counterexample`) -/
+def chargeIfEmpty (st : St) (s : Nat) : Option St :=
+  match st.streams[s]? with
+  | some x =>
+    if x.pend = .charge then
+      let st' := setS { st with charged := st.charged ++ [s] } s x.charge
+      match st.charged, st.parkedQ with
+      | [], p :: rest => some (setP { st' with parkedQ := rest } p .woken)
+      | _, _ => some st'
+    else none
+  | none => none
+
+def stepIfEmpty? (st : St) : Op → Option St
+  | .charge s => chargeIfEmpty st s
+  | op => step? st op
+
 end FileD.Stream
